@@ -1014,3 +1014,200 @@ Example C10_ex_raw_names_typed :
   icmp6_raw_names_typed (CtlMsg.Spec.V6Unknown 200 7 0 1 0 2) = false /\
   length icmp4_typed_pairs = 29%nat /\ length icmp6_typed_pairs = 28%nat.
 Proof. repeat split; vm_compute; reflexivity. Qed.
+
+(* ---- audit round 2 (C10): PacketHeaders on built bytes -----------------------------------------------------
+   C10_crate_parse_back proves "strict parsing accepts them and recovers the supplied values" for the
+   SlicedPacket family.  Here the same for the header-struct family, by composition (Builder/CutFree.v,
+   Builder/HdrOfView.v, Builder/ProofsHeaders.v; no new model):
+     C10_crate_parse_back        SlicedPacket::from_* on the built bytes = Ok sp with view expected_x
+     C04_headers_eq_slices       PacketHeaders::from_* = (`hagree`) the slicing algorithm CUT in front of the first
+                                 IPv6 extension header of a kind whose struct slot is already filled
+     C10_cut_free                the cut result is the slicing result sp as soon as, on every header payload from
+                                 which sp's extension area was sliced, the cut walk and the uncut walk coincide
+                                 (`exts_indep`); C10_chain_cut_free: they coincide when the header payload carries a
+                                 chain (Parse/HdrSlots.v) whose kinds never meet a filled slot (`norefill`)
+     C10_built_not_stopped       that holds for EVERY built configuration the message type admits: the builder
+                                 writes hop-by-hop, destination options, routing, fragment, authentication, final
+                                 destination options (the last only together with a routing header), each at most
+                                 once; none of the 48 shapes meets a filled slot (the two destination options
+                                 headers go to different slots because a routing header lies between them).  So the
+                                 C04 exception never applies to a built packet: Cut.from_* true bs =
+                                 SlicedPacket.from_* bs and stopped_at_ext = false, for the entry points
+                                 from_ethernet / from_ip / from_ether_type.
+   C10_headers_parse_back: for every well-formed configuration whose payload the message type admits (the
+   hypotheses of C10_crate_parse_back), PacketHeaders::from_ethernet_slice (Ethernet II link) / from_ip_slice (no
+   link header) / from_ether_type with the network layer's ether type (no link header) on the built bytes returns
+   Ok, and the observer view of the result (Parse/HdrView.v: the window of every header struct + the innermost
+   payload) is exactly `hexpected c (len p)` = `hv_of_view` of the expected view expected_x: Ethernet II header
+   (0, 14); one (fst w, 4) window per VLAN tag; IPv4 header (+ authentication header) / IPv6 header, first
+   next-header, fragmentation flag and the window of all extension headers / ARP packet; the transport header
+   window (UDP 8, TCP data offset * 4, ICMPv6 8, ICMPv4 8 or 20 as the parser reads the first two octets:
+   `icmp4_parsed_hl`) and the payload behind it; without transport layer (raw ip number, fragmenting
+   fragment header / IPv4 fragment) the IP payload descriptor (number, fragmentation flag, length source,
+   window).  PacketHeaders has no Linux cooked capture entry point (`hdr_entry c bs = None` there). *)
+From EP Require Import Parse.HdrModel Parse.HdrView Parse.HdrCut.
+From EP Require Parse.Slices Parse.Cursor Parse.HdrSlots.
+From EP Require Import Builder.CutFree Builder.HdrOfView Builder.ProofsHeaders.
+
+(* generic (nothing about the builder): a chain without slot collision is walked identically with and
+   without the cut *)
+Theorem C10_chain_cut_free : forall nh0 hp L k' nh',
+  EP.Parse.HdrSlots.chain hp 0 nh0 L k' nh' ->
+  norefill fill_none (map EP.Parse.HdrSlots.item_kind L) = true ->
+  is_ext_number nh' = false -> nh' <> IPN_HOP_BY_HOP ->
+  Cut.exts_from_slice true nh0 hp = Cut.exts_from_slice false nh0 hp.
+Proof. exact exts_cutfree. Qed.
+Print Assumptions C10_chain_cut_free.
+
+Theorem C10_cut_free : forall bs et,
+  (forall sp, EP.Parse.Cursor.SlicedPacket.from_ethernet bs = Ok sp -> exts_indep sp ->
+     Cut.from_ethernet true bs = Ok sp) /\
+  (forall sp, EP.Parse.Cursor.SlicedPacket.from_ether_type et bs = Ok sp -> exts_indep sp ->
+     Cut.from_ether_type true et bs = Ok sp) /\
+  (forall sp, EP.Parse.Cursor.SlicedPacket.from_ip bs = Ok sp -> exts_indep sp -> Cut.from_ip true bs = Ok sp).
+Proof. exact cut_free. Qed.
+Print Assumptions C10_cut_free.
+
+Check (eq_refl : norefill =
+  fix nr (f : fill) (l : list N) : bool :=
+    match l with
+    | [] => true
+    | k :: r => negb (refilled f k) && nr (fill_add f k) r
+    end).
+Check (eq_refl : exts_indep =
+  fun sp => forall v nh hp, EP.Parse.Cursor.sp_net sp = Some (EP.Parse.Cursor.NtIpv6 v) ->
+    EP.Parse.Slices.Ipv6HeaderSlice.next_header (EP.Parse.Slices.v6_header v) = Ok nh ->
+    Cut.exts_from_slice false nh hp =
+      Ok (EP.Parse.Slices.v6_exts v, EP.Parse.Slices.ipp_number (EP.Parse.Slices.v6_payload v),
+          EP.Parse.Slices.ipp_slice (EP.Parse.Slices.v6_payload v)) ->
+    Cut.exts_from_slice true nh hp = Cut.exts_from_slice false nh hp).
+
+(* the builder's extension order never meets a filled slot: all shapes of Ipv6Extensions *)
+Theorem C10_built_order_no_refill : forall x, norefill fill_none (kinds (ext_layout6_full x)) = true.
+Proof. exact layout6_norefill. Qed.
+Print Assumptions C10_built_order_no_refill.
+
+(* the C04 exception never applies to a built packet *)
+Theorem C10_built_not_stopped : forall e c p bs,
+  cfg_wf c = true -> bytes_ok p -> payload_admitted c (len p) = true -> build e c p = BOk bs ->
+  match c_link c with
+  | LkEthernet2 _ _ =>
+      Cut.from_ethernet true bs = EP.Parse.Cursor.SlicedPacket.from_ethernet bs /\
+      stopped_at_ext (Cut.from_ethernet true bs) = false
+  | LkNone =>
+      Cut.from_ip true bs = EP.Parse.Cursor.SlicedPacket.from_ip bs /\
+      stopped_at_ext (Cut.from_ip true bs) = false /\
+      Cut.from_ether_type true (net_ether_type (c_net c)) bs =
+        EP.Parse.Cursor.SlicedPacket.from_ether_type (net_ether_type (c_net c)) bs /\
+      stopped_at_ext (Cut.from_ether_type true (net_ether_type (c_net c)) bs) = false
+  | LkLinuxSll _ _ _ => True
+  end.
+Proof. exact built_not_stopped. Qed.
+Print Assumptions C10_built_not_stopped.
+
+Theorem C10_headers_parse_back : forall e c p bs,
+  cfg_wf c = true -> bytes_ok p -> payload_admitted c (len p) = true -> build e c p = BOk bs ->
+  (forall r, hdr_entry c bs = Some r -> hvres_of_h r = HOk (hexpected c (len p))) /\
+  (c_link c = LkNone ->
+   hvres_of_h (PacketHeaders.from_ether_type (net_ether_type (c_net c)) bs) = HOk (hexpected c (len p))).
+Proof. exact headers_parse_back. Qed.
+Print Assumptions C10_headers_parse_back.
+
+(* pin the meaning *)
+Check (eq_refl : hdr_entry =
+  fun c bs => match c_link c with
+              | LkEthernet2 _ _ => Some (PacketHeaders.from_ethernet_slice bs)
+              | LkNone => Some (PacketHeaders.from_ip_slice bs)
+              | LkLinuxSll _ _ _ => None
+              end).
+Check (eq_refl : hexpected = fun c plen => hv_of_view (icmp4_parsed_hl c) (expected_x c plen)).
+Check (eq_refl : icmp4_parsed_hl =
+  fun c => match c_transport c with
+           | TrIcmpv4 t =>
+               if ((fst (icmp4_tc t) =? 13) || (fst (icmp4_tc t) =? 14)) && (0 =? snd (icmp4_tc t)) then 20 else 8
+           | _ => 8
+           end).
+Check (eq_refl : hv_of_view =
+  fun hl4 x =>
+    mkHv (match v_link x with
+          | Some (VEthernet2 w) => Some (fst w, 14)
+          | Some (VLinuxSll h _) => Some h
+          | _ => None
+          end)
+         (map (fun e => match e with VVlan w => HvVlan (fst w, 4) | VMacsec h _ => HvMacsec h end) (v_exts x))
+         (option_map (fun n => match n with
+                               | VIpv4 h a _ => HvIpv4 h a
+                               | VIpv6 h f fr xw _ => HvIpv6 h f fr xw
+                               | VArp w => HvArp w
+                               end) (v_net x))
+         (option_map (fun t => fst (tr_hdr hl4 t)) (v_transport x))
+         (match v_transport x with
+          | Some t => snd (tr_hdr hl4 t)
+          | None => match v_net x with
+                    | Some (VIpv4 _ _ p) | Some (VIpv6 _ _ _ _ p) => HvpIp p
+                    | _ => HvpEmpty
+                    end
+          end)).
+Check (eq_refl : tr_hdr =
+  fun hl4 t =>
+    match t with
+    | VUdp w => (HvUdp (fst w, 8), HvpUdp (fst w + 8, snd w - 8))
+    | VTcp hl w => (HvTcp (fst w, hl), HvpTcp (fst w + hl, snd w - hl))
+    | VIcmpv4 w => (HvIcmpv4 (fst w, hl4), HvpIcmpv4 (fst w + hl4, snd w - hl4))
+    | VIcmpv6 w => (HvIcmpv6 (fst w, 8), HvpIcmpv6 (fst w + 8, snd w - 8))
+    end).
+
+(* ---- non-vacuity ---- *)
+(* Ethernet II / IPv6 with hop-by-hop, routing, fragment (not fragmenting), authentication and final
+   destination options headers / UDP with 3 payload bytes.  The hypotheses hold; the layout has five
+   extension headers, two of them (routing, final destination options) of the raw kind 43 / 60; struct
+   decoding returns exactly hexpected: the 48 byte extension area [54, 102), the UDP header (102, 8) and the
+   payload (110, 3); every slot of the struct except the first destination options slot is filled, with the
+   windows in wire order *)
+Definition ex_exts6_full : ExtChain.Model.Exts6 :=
+  ExtChain.Model.mkExts6 (Some (ExtChain.Model.mkRaw 0 0 [1; 4; 0; 0; 0; 0])) None
+    (Some (ExtChain.Model.mkRouting (ExtChain.Model.mkRaw 0 0 [0; 0; 0; 0; 0; 0])
+             (Some (ExtChain.Model.mkRaw 0 0 [1; 4; 0; 0; 0; 0]))))
+    (Some (ExtChain.Model.mkFrag 0 0 false 99))
+    (Some (ExtChain.Model.mkAuth 0 7 9 1 [1; 2; 3; 4])).
+Definition ex_cfg_v6full : cfg := mkCfg (c_link ex_cfg) VlNone (NtIpv6 ex_ip6 ex_exts6_full) (TrUdp 21 1234).
+Example C10_ex_headers_parse_back :
+  cfg_wf ex_cfg_v6full = true /\ bytes_ok [1; 2; 3] /\ payload_admitted ex_cfg_v6full 3 = true /\
+  ext_layout ex_cfg_v6full =
+    [(ExtChain.Spec.KHopByHop, 8); (ExtChain.Spec.KRouting, 8); (ExtChain.Spec.KFragment, 8);
+     (ExtChain.Spec.KAuth, 16); (ExtChain.Spec.KFinalDestOpts, 8)] /\
+  kinds (ext_layout_full ex_cfg_v6full) = [0; 43; 44; 51; 60] /\
+  hexpected ex_cfg_v6full 3 =
+    mkHv (Some (0, 14)) [] (Some (HvIpv6 (14, 40) (Some 0) false (54, 48))) (Some (HvUdp (102, 8)))
+         (HvpUdp (110, 3)) /\
+  exists bs, build LE ex_cfg_v6full [1; 2; 3] = BOk bs /\ len bs = 113 /\
+    hdr_entry ex_cfg_v6full bs = Some (PacketHeaders.from_ethernet_slice bs) /\
+    hvres_of_h (PacketHeaders.from_ethernet_slice bs) = HOk (hexpected ex_cfg_v6full 3) /\
+    stopped_at_ext (Cut.from_ethernet true bs) = false /\
+    exists hp hd x, PacketHeaders.from_ethernet_slice bs = Ok hp /\ h_net hp = Some (HnIp (IhV6 hd x)) /\
+      map (fun k => option_map win_of (EP.Parse.HdrSlots.slot_get x k))
+          [EP.Parse.HdrSlots.SHbh; EP.Parse.HdrSlots.SDest; EP.Parse.HdrSlots.SRoute;
+           EP.Parse.HdrSlots.SFdest; EP.Parse.HdrSlots.SFrag; EP.Parse.HdrSlots.SAuth] =
+        [Some (54, 8); None; Some (62, 8); Some (94, 8); Some (70, 8); Some (78, 16)].
+Proof.
+  split; [vm_compute; reflexivity|]. split; [apply bytes_okb_spec; vm_compute; reflexivity|].
+  split; [vm_compute; reflexivity|]. split; [vm_compute; reflexivity|]. split; [vm_compute; reflexivity|].
+  split; [vm_compute; reflexivity|].
+  eexists. split; [vm_compute; reflexivity|]. split; [vm_compute; reflexivity|]. split; [reflexivity|].
+  split; [vm_compute; reflexivity|]. split; [vm_compute; reflexivity|].
+  do 3 eexists. split; [vm_compute; reflexivity|]. split; [reflexivity|]. vm_compute; reflexivity.
+Qed.
+(* no link header: from_ip_slice and from_ether_type on a raw Unknown{type 13, code 0} ICMPv4 message of 20
+   bytes (the parser reads it as a timestamp message: header 20, payload 0) *)
+Example C10_ex_headers_parse_back_nolink :
+  cfg_wf ex_cfg_nolink = true /\ payload_admitted ex_cfg_nolink 12 = true /\ icmp4_parsed_hl ex_cfg_nolink = 20 /\
+  exists bs, build LE ex_cfg_nolink (repeat 7 12) = BOk bs /\
+    hvres_of_h (PacketHeaders.from_ip_slice bs) = HOk (hexpected ex_cfg_nolink 12) /\
+    hvres_of_h (PacketHeaders.from_ether_type 2048 bs) = HOk (hexpected ex_cfg_nolink 12) /\
+    hexpected ex_cfg_nolink 12 =
+      mkHv None [] (Some (HvIpv4 (0, 20) None)) (Some (HvIcmpv4 (20, 20))) (HvpIcmpv4 (40, 0)).
+Proof.
+  split; [vm_compute; reflexivity|]. split; [vm_compute; reflexivity|]. split; [vm_compute; reflexivity|].
+  eexists. split; [vm_compute; reflexivity|]. repeat split; vm_compute; reflexivity.
+Qed.
+(* ---- end audit round 2 ---- *)
